@@ -141,3 +141,168 @@ def emit_conn(job):
     rec = {"status": "ok", "exc": "", "prog": program(s)}
     rec.update(fl.emit_info())
     return rec
+
+
+# ---------------------------------------------------------------------------------------
+# generic z3 runner: job["family"] selects how the helper is called
+
+def _call_helper(s, job, arg):
+    fam, obj = job["family"], job["obj"]
+    if fam == "acyclic":
+        cg.active_edges_acyclic(s, arg, mk_graph(obj["graph"]))
+    elif fam == "notadj":
+        if obj["kind"] == "grid":
+            cg.active_vertices_not_adjacent(s, arg)
+        else:
+            cg.active_vertices_not_adjacent(s, arg, mk_graph(obj["graph"]))
+    elif fam == "notseg":
+        if obj["kind"] == "grid" and job.get("as_graph"):
+            cg.active_vertices_not_adjacent_and_not_segmenting(s, arg, mk_graph(obj["graph"]))
+        elif obj["kind"] == "grid":
+            cg.active_vertices_not_adjacent_and_not_segmenting(s, arg)
+        else:
+            cg.active_vertices_not_adjacent_and_not_segmenting(s, arg, mk_graph(obj["graph"]))
+    else:
+        raise ValueError(fam)
+    return None
+
+
+def run_flags(job):
+    """families whose only inputs are n boolean flags and whose only output is the verdict"""
+    obj, form = job["obj"], job["form"]
+    n = job["nflags"]
+    shape = (obj["h"], obj["w"]) if (obj["kind"] == "grid" and not job.get("as_graph")) else None
+    out = []
+    for p, exp in zip(job["patterns"], job["expects"]):
+        s = Solver()
+        bits = bits_of(p, n)
+        try:
+            if form == "const":
+                if job["family"] in ("notseg",) and not shape:
+                    arg = BoolArray1D(const_flags(bits))
+                else:
+                    arg = BoolArray2D(const_flags(bits), shape) if shape else const_flags(bits)
+                _call_helper(s, job, arg)
+            else:
+                fl = Flags(s, n, form)
+                arg = fl.as_arg(shape)
+                if job["family"] == "notseg" and not shape and not isinstance(arg, BoolArray1D):
+                    arg = BoolArray1D(arg)      # the graph form negates the array: needs an array
+                _call_helper(s, job, arg)
+                fl.fix(bits)
+            got = solve(s)
+        except Watchdog:
+            got = "DidNotTerminate"
+        except Exception as e:  # noqa
+            got = "raised " + type(e).__name__
+        if got != exp:
+            out.append({"pattern": p, "expected": exp, "observed": got})
+    return out
+
+
+# ---------------------------------------------------------------------------------------
+# C06: single cycle / single path
+
+def _edge_flags(s, obj, form):
+    """returns (argument for the helper, Flags-like fixer, number of flags)"""
+    if obj["kind"] == "frame":
+        fr = BoolGridFrame(s, obj["h"], obj["w"])
+        edges, _ = cg._from_grid_frame(fr)       # the order MC_Graph's Lattice() uses (checked by C14)
+        ids = [e.id for e in edges]
+        return fr, ids
+    fl = Flags(s, len(obj["graph"]["edges"]), form)
+    return fl, None
+
+
+def _fix_ids(s, ids, bits):
+    for vid, b in zip(ids, bits):
+        s.ensure(s.variables[vid] == b)
+
+
+def run_cycle(job):
+    """z3 route of active_edges_single_cycle: verdict and, through solve(), the returned array"""
+    obj, form = job["obj"], job["form"]
+    m = len(obj["graph"]["edges"])
+    npts = obj["graph"]["n"]
+    out = []
+    for p, exp, mask in zip(job["patterns"], job["expects"], job["masks"]):
+        s = Solver()
+        bits = bits_of(p, m)
+        got, why = None, ""
+        try:
+            if obj["kind"] == "frame":
+                fr, ids = _edge_flags(s, obj, form)
+                ret = cg.active_edges_single_cycle(s, fr, use_graph_primitive=job.get("prim", False))
+                if tuple(ret.shape) != (obj["h"] + 1, obj["w"] + 1):
+                    why = f"returned shape {ret.shape}"
+                _fix_ids(s, ids, bits)
+                passed = list(ret.flatten())
+            else:
+                if form == "const":
+                    arg = const_flags(bits)
+                    ret = cg.active_edges_single_cycle(s, arg, mk_graph(obj["graph"]), use_graph_primitive=job.get("prim", False))
+                else:
+                    fl, _ = _edge_flags(s, obj, form)
+                    ret = cg.active_edges_single_cycle(s, fl.as_arg(), mk_graph(obj["graph"]), use_graph_primitive=job.get("prim", False))
+                    fl.fix(bits)
+                passed = list(ret)
+            s.add_answer_key(passed)
+            signal.signal(signal.SIGALRM, _alarm)
+            signal.alarm(30)
+            try:
+                got = s.solve("z3")
+            finally:
+                signal.alarm(0)
+            if got is True and not why:
+                vals = [v.sol for v in passed]
+                want = bits_of(mask, npts)
+                if vals != want:
+                    why = f"returned array {vals} but the cycle visits {want}"
+        except Watchdog:
+            got = "DidNotTerminate"
+        except Exception as e:  # noqa
+            got = "raised " + type(e).__name__
+        if got != exp or why:
+            out.append({"pattern": p, "expected": exp, "observed": got, "why": why})
+    return out
+
+
+def emit_cycle(job):
+    """native-primitive program of single_cycle / single_path"""
+    obj, form, which = job["obj"], job["form"], job["which"]
+    fn = cg.active_edges_single_cycle if which == "cycle" else cg.active_edges_single_path
+    s = Solver()
+    try:
+        if obj["kind"] == "frame":
+            fr, ids = _edge_flags(s, obj, form)
+            ret = fn(s, fr, use_graph_primitive=True)
+            passed = list(ret.flatten())
+            shape_ok = tuple(ret.shape) == (obj["h"] + 1, obj["w"] + 1)
+            info = {"bits": [{"var": i, "neg": False} for i in ids], "fixed": []}
+        else:
+            fl, _ = _edge_flags(s, obj, form)
+            ret = fn(s, fl.as_arg(), mk_graph(obj["graph"]), use_graph_primitive=True)
+            passed = list(ret)
+            shape_ok = len(passed) == obj["graph"]["n"]
+            info = fl.emit_info()
+    except Exception as e:  # noqa
+        return {"status": "exc", "exc": type(e).__name__}
+    if not shape_ok or not all(isinstance(v, BoolVar) for v in passed):
+        return {"status": "exc", "exc": "ReturnedArrayHasWrongShape"}
+    rec = {"status": "ok", "exc": "", "prog": program(s),
+           "outs": [{"vars": [v.id for v in passed], "masks": job["masks"]}]}
+    rec.update(info)
+    return rec
+
+
+def path_nonprimitive_raises(obj):
+    s = Solver()
+    try:
+        if obj["kind"] == "frame":
+            cg.active_edges_single_path(s, BoolGridFrame(s, obj["h"], obj["w"]), use_graph_primitive=False)
+        else:
+            m = len(obj["graph"]["edges"])
+            cg.active_edges_single_path(s, [s.bool_var() for _ in range(m)], mk_graph(obj["graph"]), use_graph_primitive=False)
+    except Exception:
+        return True
+    return False
